@@ -20,7 +20,7 @@ pub struct I2(pub u32);
 #[zbus::interface(name = "c24.I0")]
 impl I0 {
     fn ping(&self) -> u32 {
-        100
+        self.0
     }
     #[zbus(property)]
     fn value(&self) -> u32 {
@@ -30,7 +30,7 @@ impl I0 {
 #[zbus::interface(name = "c24.I1")]
 impl I1 {
     fn ping(&self) -> u32 {
-        101
+        self.0
     }
     #[zbus(property)]
     fn value(&self) -> u32 {
@@ -44,7 +44,7 @@ impl I1 {
 #[zbus::interface(name = "c24.I2")]
 impl I2 {
     fn ping(&self) -> u32 {
-        102
+        self.0
     }
 }
 
@@ -52,6 +52,18 @@ impl I2 {
 pub enum Op {
     At(usize, usize),
     Remove(usize, usize),
+    /// remove a standard interface (0 = Properties, 1 = ObjectManager, absent unless added) of the node at a path
+    RemoveStd(usize, usize),
+}
+
+/// the random campaign's operations: the basic ones plus removals of standard interfaces
+pub fn op_from_ext(b: u8) -> Op {
+    let b = b as usize % 48;
+    if b < 36 {
+        op_from(b as u8)
+    } else {
+        Op::RemoveStd((b - 36) % 6, (b - 36) / 6)
+    }
 }
 
 pub fn op_from(b: u8) -> Op {
@@ -115,7 +127,7 @@ pub fn c24_enum_case(src: &mut Src, obs: &mut Obs) -> CaseResult {
 
 pub fn c24_random_case(src: &mut Src, obs: &mut Obs) -> CaseResult {
     let n = 1 + src.below(40);
-    let ops: Vec<Op> = (0..n).map(|_| op_from(src.u8())).collect();
+    let ops: Vec<Op> = (0..n).map(|_| op_from_ext(src.u8())).collect();
     let sched_bytes = src.bytes(16);
     run_history(&ops, true, &sched_bytes, obs)
 }
@@ -127,6 +139,9 @@ fn run_history(ops: &[Op], wire: bool, sched_bytes: &[u8], obs: &mut Obs) -> Cas
     let mut sch = Sch::new(sched_bytes.to_vec());
     let mut peer = Peer::new(sh, false);
     let mut model: BTreeSet<(usize, usize)> = BTreeSet::new();
+    // which instance is served for a pair: the one of the at() that registered it (a refused
+    // duplicate must not replace it)
+    let mut instance: BTreeMap<(usize, usize), u32> = BTreeMap::new();
     let mut nontrivial = false;
     let mut done_ops = vec![];
     // make sure the object server (and its dispatch task) exists and has settled
@@ -141,6 +156,8 @@ fn run_history(ops: &[Op], wire: bool, sched_bytes: &[u8], obs: &mut Obs) -> Cas
             let r = match op2 {
                 Op::At(p, i) => do_at(&c, p, i, step as u32).await,
                 Op::Remove(p, i) => do_remove(&c, p, i).await,
+                Op::RemoveStd(p, 0) => c.object_server().remove::<zbus::fdo::Properties, _>(PATHS[p]).await,
+                Op::RemoveStd(p, _) => c.object_server().remove::<zbus::fdo::ObjectManager, _>(PATHS[p]).await,
             };
             *o2.lock().unwrap() = Some(r.map_err(|e| e.to_string()));
         });
@@ -154,6 +171,9 @@ fn run_history(ops: &[Op], wire: bool, sched_bytes: &[u8], obs: &mut Obs) -> Cas
         match op {
             Op::At(p, i) => {
                 let fresh = model.insert((*p, *i));
+                if fresh {
+                    instance.insert((*p, *i), step as u32);
+                }
                 if r != Ok(fresh) {
                     return Err(Failure::new(format!("at({}, {}) returned {r:?}, expected Ok({fresh}); history {done_ops:?}", PATHS[*p], IFACES[*i])));
                 }
@@ -178,6 +198,11 @@ fn run_history(ops: &[Op], wire: bool, sched_bytes: &[u8], obs: &mut Obs) -> Cas
                     }
                 }
                 model.remove(&(*p, *i));
+                instance.remove(&(*p, *i));
+            }
+            Op::RemoveStd(..) => {
+                // (whatever it returns: the other interfaces of the node stay as they are)
+                nontrivial = true;
             }
         }
         // the registry agrees with the model on all 18 pairs
@@ -199,7 +224,7 @@ fn run_history(ops: &[Op], wire: bool, sched_bytes: &[u8], obs: &mut Obs) -> Cas
         let seen: BTreeSet<(usize, usize)> = seen.lock().unwrap().iter().copied().collect();
         if seen != model {
             let show = |s: &BTreeSet<(usize, usize)>| s.iter().map(|(p, i)| format!("{}:{}", PATHS[*p], IFACES[*i])).collect::<Vec<_>>();
-            let key = classify_c24(&{ let mut m = model.clone(); if let Op::Remove(p, i) = op { m.insert((*p, *i)); } m }, *op, "");
+            let key = if matches!(op, Op::RemoveStd(..)) { None } else { classify_c24(&{ let mut m = model.clone(); if let Op::Remove(p, i) = op { m.insert((*p, *i)); } m }, *op, "") };
             return Err(Failure { key, msg: format!("after {done_ops:?} the server exposes {:?} but the history implies {:?}", show(&seen), show(&model)) });
         }
         if wire {
@@ -229,7 +254,7 @@ fn run_history(ops: &[Op], wire: bool, sched_bytes: &[u8], obs: &mut Obs) -> Cas
                     return Err(Failure::new(format!("call to {}:{} got {} replies; history {done_ops:?}", PATHS[*p], IFACES[*i], replies.len())));
                 }
                 let r = replies[0];
-                let ok = r.mtype == msg::T_RETURN && r.body.first() == Some(&RVal::U(100 + *i as u32));
+                let ok = r.mtype == msg::T_RETURN && r.body.first() == instance.get(&(*p, *i)).map(|v| RVal::U(*v)).as_ref();
                 let refused = r.mtype == msg::T_ERROR && matches!(r.get_str(msg::F_ERROR_NAME), Some("org.freedesktop.DBus.Error.UnknownObject") | Some("org.freedesktop.DBus.Error.UnknownInterface"));
                 let present = model.contains(&(*p, *i));
                 if (present && !ok) || (!present && !refused) {
